@@ -162,7 +162,8 @@ def panic_wrappers(F):
     for f in F.fns.values():
         if f.crate != "cairo_lang_utils" or not f.body or "{closure" in f.path:
             continue
-        if any(True for _ in site_kinds(f, ())):
+        if any(True for _ in site_kinds(f, ())) or any(any(True for _ in site_kinds(g, ())) for g in F.closures_of(f)):
+            # (the panic may sit in a closure of the wrapper: `x.try_into().unwrap_or_else(|_| panic!(..))`)
             out.add(fn_key(f.path))
     return out
 
